@@ -221,6 +221,32 @@ static void parameter_with_stats() {
   }
 }
 
+// ---- data vectors whose length does not match the shape: every construction path must reject them
+static void wrong_size_data() {
+  devices::Naive dev(5u); devices::Eigen edev(5u);
+  Graph g; Graph::set_default(g);
+  const V v6 = {1, 2, 3, 4, 5, 6};
+  for (Device *d : {static_cast<Device *>(&dev), static_cast<Device *>(&edev)}) {
+    Device::set_default(*d);
+    for (const V &bad : {V{}, V{1, 2}, V{1, 2, 3, 4, 5}, V{1, 2, 3, 4, 5, 6, 7}}) {
+      const std::string n = " (" + std::to_string(bad.size()) + " values for [2,3])";
+      EXPECT_ERROR("new_tensor_by_vector" + n, d->new_tensor_by_vector(Shape({2, 3}), bad));
+      EXPECT_ERROR("input<Tensor>" + n, F::input<Tensor>(Shape({2, 3}), bad, *d));
+      EXPECT_ERROR("input<Node>" + n, F::input<Node>(Shape({2, 3}), bad, *d));
+      EXPECT_ERROR("Parameter(shape, values)" + n, Parameter(Shape({2, 3}), bad, *d));
+      Tensor t = d->new_tensor_by_vector(Shape({2, 3}), v6);
+      EXPECT_ERROR("Tensor::reset_by_vector" + n, t.reset_by_vector(bad));
+      if (!same(t.to_vector(), v6)) fail("Tensor::reset_by_vector" + n, "rejected call changed the tensor"); else ok("t unchanged");
+      Parameter p(Shape({2, 3}), v6, *d);
+      EXPECT_ERROR("Parameter::init(shape, values)" + n, p.init(Shape({2, 3}), bad, *d));
+      if (!same(p.value().to_vector(), v6)) fail("Parameter::init" + n, "rejected call changed the parameter"); else ok("p unchanged");
+    }
+    // batched shapes: volume * batch values are required
+    EXPECT_ERROR("new_tensor_by_vector: 6 values for [2,3]x2", d->new_tensor_by_vector(Shape({2, 3}, 2), v6));
+    EXPECT_ERROR("input<Node>: 6 values for [2,3]x2", F::input<Node>(Shape({2, 3}, 2), v6, *d));
+  }
+}
+
 static void invalid_objects() {
   devices::Naive dev(1u), dev2(2u);
   Device::set_default(dev);
@@ -411,9 +437,11 @@ int main(int argc, char **argv) {
   unsigned seed = argc > 1 ? std::stoul(argv[1]) : 1;
   int n = argc > 2 ? std::stoi(argv[2]) : 12;
   std::mt19937 rng(seed);
-  invalid_objects();
-  parameter_with_stats();
-  alloc_failure_objects();
+  // each block under a catch-all: an exception escaping a block is itself a finding, not a crash
+  { std::string r = outcome([&]() { invalid_objects(); }); if (r != "ok") fail("block invalid_objects", "escaped: " + r); }
+  { std::string r = outcome([&]() { wrong_size_data(); }); if (r != "ok") fail("block wrong_size_data", "escaped: " + r); }
+  { std::string r = outcome([&]() { parameter_with_stats(); }); if (r != "ok") fail("block parameter_with_stats", "escaped: " + r); }
+  { std::string r = outcome([&]() { alloc_failure_objects(); }); if (r != "ok") fail("block alloc_failure_objects", "escaped: " + r); }
   for (int i = 0; i < n; ++i) {
     Prog p{(unsigned)i, 2 + (std::uint32_t)(rng() % 3), 2 + (std::uint32_t)(rng() % 3), 1 + (std::uint32_t)(rng() % 3)};
     alloc_failure_program(p);
